@@ -66,7 +66,7 @@ def step (line : String) : String :=
   | ["serialize", plus, d] =>
     match parseBool? plus, readParsed? d with
     | some plus, some p =>
-      match serializeParsed plus p with
+      match serializeParsed (constPlus plus) p with
       | .ok t => "S" ++ esc t
       | .error e => "ERR:" ++ e.name
     | _, _ => "bad-op"
@@ -81,7 +81,7 @@ def step (line : String) : String :=
   | ["rt", plus, d] =>
     match parseBool? plus, readParsed? d with
     | some plus, some (.single a) =>
-      match parse true (serialize plus a) with
+      match parse true (serialize (constPlus plus) a) with
       | .ok (.single b) => if b = a then "1" else "0"
       | _ => "0"
     | _, _ => "bad-op"
